@@ -11,7 +11,7 @@ def check(tier):
     pvh = build_harness()
     lines = []
     for cfg in ["MC_PongoLoader_q.cfg" if tier == "quick" else "MC_PongoLoader_t.cfg", "MC_PongoLoader_hard.cfg",
-                "MC_PongoLoader_hard_extends.cfg", "MC_PongoLoader_hard_import.cfg", "MC_PongoLoader_hard_ssi.cfg", "MC_PongoLoader_hard_ssi_parsed.cfg", "MC_PongoLoader_child.cfg"]:
+                "MC_PongoLoader_hard_extends.cfg", "MC_PongoLoader_hard_import.cfg", "MC_PongoLoader_hard_ssi.cfg", "MC_PongoLoader_hard_ssi_parsed.cfg", "MC_PongoLoader_child.cfg", "MC_PongoLoader_loop.cfg"]:
         res = run_tlc("MC_PongoLoader", cfg, timeout=3000, deadlock=False, vector_sink=lambda o: lines.append(json.dumps(o)))
         require_model_ok(res, cfg)
         rep.add_tlc(cfg, res)
